@@ -70,7 +70,10 @@ def make_case(index, rng, tier):
     proxy_line = None
     if rng.randrange(3) == 0 or (cfg["proxy_protocol"] and rng.randrange(3)):
         proxy_line = "PROXY TCP4 %s 10.0.0.1 %d 80" % tuple(PROXY_DECL)
-    return {"cfg": cfg, "peer": rng.choice(PEERS), "reqs": reqs, "proxy_line": proxy_line,
+    proxy_mid = None
+    if nreq > 1 and rng.randrange(5) == 0:
+        proxy_mid = {"before": rng.randrange(1, nreq), "line": "PROXY TCP4 127.0.0.1 10.0.0.1 1111 80"}
+    return {"cfg": cfg, "peer": rng.choice(PEERS), "reqs": reqs, "proxy_line": proxy_line, "proxy_mid": proxy_mid,
             "family": rng.choice(conn.FAMILIES), "keepalive": rng.choice([2, 2, 0])}
 
 
@@ -93,7 +96,10 @@ def run(case, choices):
     parts = []
     if case["proxy_line"]:
         parts.append(case["proxy_line"] + "\r\n")
-    for hs in case["reqs"]:
+    mid = case.get("proxy_mid")
+    for k_, hs in enumerate(case["reqs"]):
+        if mid and mid["before"] == k_:
+            parts.append(mid["line"] + "\r\n")
         parts.append("GET /app/page HTTP/1.1\r\n" + "".join("%s: %s\r\n" % (n, v) for n, v in hs) + "\r\n")
     data = "".join(parts).encode("latin-1")
     sock = conn.SimSock(data, (), peer=peer)
@@ -109,6 +115,10 @@ def run(case, choices):
                     "a PROXY line from a peer outside proxy_allow_ips was not refused; %s" % ctx())
     if case["proxy_line"] and not c["proxy_protocol"] and state.calls > 0:
         res.violate("C08:%s:proxy-line:disabled" % fam, "a PROXY line was accepted although proxy_protocol is off; %s" % ctx())
+    if mid and state.calls > mid["before"]:
+        res.violate("C08:%s:proxy-line:mid-connection" % fam,
+                    "a PROXY line in front of request %d of the connection (only the first request may carry one) did not end the "
+                    "connection: %d requests reached the application; %s" % (mid["before"], state.calls, ctx()))
     decl = (PROXY_DECL[0], PROXY_DECL[1]) if proxy_ok else None
     if proxy_ok:
         res.probes["proxy_line_accepted"] += 1
@@ -181,3 +191,5 @@ def shrink(case):
             yield dict(case, reqs=case["reqs"][:i] + [hs[:j] + hs[j + 1:]] + case["reqs"][i + 1:])
     if case["proxy_line"]:
         yield dict(case, proxy_line=None)
+    if case.get("proxy_mid"):
+        yield dict(case, proxy_mid=None)
